@@ -587,6 +587,45 @@ def rule_r6(prog, res):
               prog, Result)
 
 
+# ------------------------------------------------------------------- R7
+def rule_r7(prog, res):
+    res.rule('R7', 'the all-missing argument list is built only when the '
+             'request has no body element at all; any body element, even a '
+             'childless one, is read with the declared class')
+    n = 0
+    for cn in ('spyne.protocol.xml:XmlDocument',
+               'spyne.protocol.soap.soap11:Soap11',
+               'spyne.protocol.json:_SpyneJsonRpc1'):
+        f = prog.cls(cn).methods.get('deserialize')
+        if f is None:
+            continue
+        for a in walk_no_defs(f.node):
+            if not (isinstance(a, ast.Assign) and any(
+                    unparse(t) == 'ctx.in_object' for t in a.targets) and
+                    isinstance(a.value, ast.BinOp) and isinstance(
+                        a.value.op, ast.Mult) and
+                    unparse(a.value.left) == '[None]'):
+                continue
+            n += 1
+            atoms = [(t, p_) for t, p_ in guardspec.atoms_at(a, f.node)
+                     if 'in_body_doc' in t and 'Fault' not in t]
+            ok = atoms == [('ctx.in_body_doc is None', True)]
+            where = '%s:%d' % (f.module.relpath, a.lineno)
+            res.ob('R7', where, '%s builds the placeholder list under %s' % (
+                f.qualname, ['%s%s' % ('' if p_ else 'not ', t)
+                             for t, p_ in atoms]), 'ok' if ok else 'VIOLATED')
+            if not ok:
+                res.finding('R7', '%s|placeholder-condition' % f.qualname,
+                            where, '%s replaces the request by a list of '
+                            'Nones under %s: a present but childless body '
+                            'element is no longer read with the declared '
+                            'class, so a bare method receives a list where '
+                            'its single argument belongs and wrapped methods '
+                            'skip the missing-member checks' % (
+                                f.qualname, [t for t, _ in atoms]))
+    res.floor('R7', 'placeholder argument lists', n, 3)
+
+
 def run(prog, res, tier):
     res.run_rule(rule_r1, prog, res)
     res.run_rule(rule_r2, prog, res)
@@ -594,6 +633,7 @@ def run(prog, res, tier):
     res.run_rule(rule_r4, prog, res)
     res.run_rule(rule_r5, prog, res)
     res.run_rule(rule_r6, prog, res)
+    res.run_rule(rule_r7, prog, res)
 
 
 _N = 'spyne/server/null.py'
@@ -601,6 +641,11 @@ _A = 'spyne/application.py'
 _D = 'spyne/descriptor.py'
 
 MUTANTS = [
+    Mutant('childless-body-fast-path', 'R7', 'fire', 'spyne/protocol/xml.py',
+           in_func('XmlDocument.deserialize',
+                   "if ctx.in_body_doc is None:",
+                   "if ctx.in_body_doc is None or len(ctx.in_body_doc) == 0:"),
+           'placeholder-condition'),
     Mutant('result-normalised-to-list', 'R5', 'fire', _A,
            in_func('Application.process_request',
                    "                ctx.out_object = [ctx.out_object]\n",
